@@ -13,6 +13,7 @@ ERR_CODES = [
     (4, "attribute is not allowed on enum, place it on its"),
     (5, "attributes are not allowed on fields when"),
     (6, "unions must have"),
+    (7, "cannot be derived for unions"),
 ]
 
 
@@ -141,7 +142,17 @@ def gen_item(rng, idx, debug=False):
                                       rng.choice(["T: Clone", "U: core::fmt::Debug, T: Copy", "Vec<T>: Sized"]))]
     if not debug and rng.random() < 0.2:
         it["container"]["rename_all"] = rng.choice(CASINGS)
-    if rng.random() < 0.5:
+    if rng.random() < 0.04:
+        it["kind"] = "union"
+        fs = gen_fields(rng, params, min_fields=1)
+        fs["kind"] = "named"
+        for i, f in enumerate(fs["list"]):
+            f["name"] = f["name"] or ["a", "b", "c"][i]
+        it["fields"] = fs
+        it["container"].pop("rename_all", None)
+        if rng.random() < 0.7:
+            it["container"]["fmt"] = gen_attr(rng, {"kind": "unit", "list": []}, trait)
+    elif rng.random() < 0.5:
         it["kind"] = "struct"
         it["fields"] = gen_fields(rng, params)
         if rng.random() < (0.75 if len(it["fields"]["list"]) != 1 else 0.5):
@@ -214,7 +225,9 @@ def display_model_exprs(it, et, tids, preds):
         return rename(s, ra) if ra else s
 
     exprs = []
-    if it["kind"] == "struct":
+    if it["kind"] == "union":
+        exprs.append("d_expand_union %s %s" % (F.opt_attr_coq(c.get("fmt"), et), pred_ids(c.get("bounds"))))
+    elif it["kind"] == "struct":
         exprs.append("d_expand_struct unicode_cc {| d_shared := None; d_fmt := %s; d_user_bounds := %s; d_name := %s; "
                      "d_fields := %s; d_params := %s; d_trait := %s |}" % (
                          F.opt_attr_coq(c.get("fmt"), et), pred_ids(c.get("bounds")),
@@ -290,7 +303,7 @@ def compare_display(chk, items, tier):
         if t[0] == "RErr":
             m_err = t[1]
         else:
-            if it["kind"] == "struct":
+            if it["kind"] in ("struct", "union"):
                 b, bs = t[1]
                 m_bodies.append(F.canon_model_body(b, et) if b != "BEmpty" else None)
                 m_bounds += F.canon_model_bounds(bs, tids_rev, preds_rev)
@@ -308,7 +321,7 @@ def compare_display(chk, items, tier):
 def real_arm_bodies(it, body):
     """canonical per-struct / per-variant bodies of a real expansion"""
     c = F.canon_real(body)
-    if it["kind"] == "struct":
+    if it["kind"] in ("struct", "union"):
         return [c]
     if c and c[0] == "match":
         return [b for (_, b) in c[2]]
@@ -325,6 +338,8 @@ def debug_model_exprs(it, et, tids, preds):
         for p in split_top(src):
             ub.append(str(preds.setdefault(F.nows(p), len(preds) + 1)))
     ub = "[%s]" % "; ".join(ub)
+    if it["kind"] == "union":
+        return ["g_expand_union"]
     if it["kind"] == "struct":
         return ["g_expand_one unicode_cc {| g_fmt := %s; g_user_bounds := %s; g_name := %s; g_fields := %s; g_params := %s |}" % (
             F.opt_attr_coq(c.get("fmt"), et), ub, coq_str(F.unraw(it["name"])), F.fields_coq(it["fields"], et, tids), params)]
@@ -430,7 +445,7 @@ def compare_debug(chk, items, tier):
         if t[0] == "RErr":
             m_err = t[1]
         else:
-            pairs = [t[1]] if it["kind"] == "struct" else t[1]
+            pairs = [t[1]] if it["kind"] in ("struct", "union") else t[1]
             for (b, bs) in pairs:
                 m_bodies.append(canon_model_debug(b, et))
                 m_bounds += F.canon_model_bounds(bs, tids_rev, preds_rev)
